@@ -55,7 +55,7 @@ def _bdecode(data: bytes, start_index: int = 0) -> typing.Tuple[typing.Union[int
             key, start_index = _bdecode(data, start_index)
             value, start_index = _bdecode(data, start_index)
             decoded_dict[key] = value
-        return decoded_dict, start_index
+        return decoded_dict, start_index + 1
     else:
         split_pos = data.find(b':', start_index)
         if split_pos < 0:
